@@ -179,6 +179,21 @@ class Harness:
         g["config"] = self.config
         self.calls: List[Tuple[str, Any]] = []
         self.reply: Any = ""
+        # id(): objects the harness keeps alive (the variables) have fixed distinct ids; an expression tree built for one
+        # conversion is garbage afterwards, and its addresses are handed out again to the next one (CPython does exactly that),
+        # so anything remembered under id(e) across conversions is looked up by a stale key
+        self._live_ids: Dict[int, int] = {}
+        self._temp_ids: Dict[int, int] = {}
+        self._keep: List[Any] = []
+
+        def _id(x: Any) -> int:
+            k = id(x)
+            if k in self._live_ids:
+                return self._live_ids[k]
+            self._keep.append(x)
+            return self._temp_ids.setdefault(k, 1000 + len(self._temp_ids))
+
+        self.cw.ev.funcs["id"] = _id
 
         def run_subprocess(args: Any, input: Any, timeout: Any = None) -> str:
             self.calls.append(("subprocess", (list(args), input)))
@@ -195,8 +210,15 @@ class Harness:
 
     def var(self, cls: str, vid: int, lo: int = 0, hi: int = 0) -> Obj:
         base = "BoolExpr" if cls == "BoolVar" else "IntExpr"
-        return Obj([cls, base, "Expr"], id=vid, lo=lo, hi=hi, op=Tag("Op.VAR"), operands=[], sol=Tag("unset"),
-                   name=f"{cls}#{vid}")
+        o = Obj([cls, base, "Expr"], id=vid, lo=lo, hi=hi, op=Tag("Op.VAR"), operands=[], sol=Tag("unset"),
+                name=f"{cls}#{vid}")
+        self._keep.append(o)
+        self._live_ids[id(o)] = len(self._live_ids)
+        return o
+
+    def new_conversion(self) -> None:
+        """the trees of the previous conversion are dead: their ids are free again"""
+        self._temp_ids.clear()
 
     def tree(self, res: str, op: str, operands: List[Any]) -> Obj:
         return Obj(["BoolExpr" if res == "b" else "IntExpr", "Expr"], op=Tag("Op." + op), operands=list(operands), name=op)
@@ -208,7 +230,7 @@ def check_printer(repo: Repo, rep: Report, h: Harness) -> Dict[str, str]:
     mod = repo.mod(SUGAR)
     rep.saw(SUGAR, "_convert_expr")
     cv = lambda v: h.cw.call("_convert_variable", v)  # noqa: E731
-    ce = lambda e: h.cw.call("_convert_expr", e)  # noqa: E731
+    ce = lambda e: (h.new_conversion(), h.cw.call("_convert_expr", e))[1]  # noqa: E731
     names: Dict[str, str] = {}
     try:
         b7, i7, i8 = h.var("BoolVar", 7), h.var("IntVar", 7, -2, 5), h.var("IntVar", 8, 0, 0)
